@@ -74,13 +74,16 @@ def check_case(schema, tname, val, codec=None, rw=None):
     """val = [a, b, c, d]"""
     rw = rw or RefWire(schema)
     codec = codec or pyh.PyCodec(schema)
+    raw_a, raw_b = val[0], val[1]
     a, b, c, d = [rw.normalize(tname, x) for x in val]
     snap = lambda m: codec.snapshot(tname, m)
 
     def fail(what, **det):
         return (what, dict(det))
     try:
-        A, B = codec.build(tname, a), codec.build(tname, b)
+        # built from the *raw* values: fields the generator left unset stay untouched (defaults), which is a
+        # different internal state from assigning the default explicitly
+        A, B = codec.build(tname, raw_a), codec.build(tname, raw_b)
         enc_a = A.encode('<')
     except Exception as ex:
         return ("building the messages raised %s: %s" % (type(ex).__name__, ex), {'exception': common.exc_info(ex)})
@@ -126,7 +129,7 @@ def check_case(schema, tname, val, codec=None, rw=None):
                 continue
             try:
                 H = codec.new(holder.name)
-                E = codec.build(tname, a)
+                E = codec.build(tname, raw_a)
                 getattr(H, m.name).extend([E])
                 el = getattr(H, m.name)[0]
                 if not pyh.values_equal(snap(el), a):
